@@ -16,10 +16,18 @@ ExactQ == Q \cup {B(k, a, b) : k \in {"add", "sub", "mul", "div"}, a, b \in Q} \
          \cup {B("pow", TInt(8), TRat(1, 3)), B("pow", TRat(9, 4), TRat(1, 2)), B("pow", TRat(27, 8), TRat(-2, 3)), U("sqrt", TInt(16)), U("exp", TInt(0)), U("log", TInt(1)), U("gamma", TInt(5)),
                U("sin", TInt(0)), U("cos", TInt(0)), U("atan", TInt(0)), U("cos", TConst("pi")), U("sin", B("div", TConst("pi"), TInt(6))), U("tan", B("div", TConst("pi"), TInt(4))),
                B("add", TRat(1, 3), B("mul", TRat(2, 3), TRat(5, 7))), B("div", B("add", TInt(1), TRat(1, 3)), B("sub", TInt(2), TRat(1, 7))), U("erf", TInt(0)), U("asin", TInt(0)), U("acos", TInt(1))}
+\* exact rational results whose numerator or denominator exceeds the range of a double (oracle: module BigRat)
+P(a, n) == B("pow", TInt(a), TInt(n))
+Huge0 == {B("div", P(3, 700), P(2, 1100)), B("div", P(2, 1100), P(3, 700)), B("div", B("add", U("gamma", TInt(201)), TInt(1)), U("gamma", TInt(201))),
+          B("div", B("add", P(10, 400), TInt(7)), B("mul", TInt(3), P(10, 399))), B("div", P(7, 400), B("add", P(7, 400), TInt(1))), B("div", B("sub", P(5, 500), TInt(1)), P(11, 330)),
+          P(3, 600), P(2, 1023), B("sub", P(2, 1000), TInt(1)), P(2, -1000), B("div", TInt(1), P(3, 600)), B("div", P(10, 308), TInt(7)), B("div", TInt(7), P(10, 300)),
+          B("div", U("gamma", TInt(171)), U("gamma", TInt(169))), B("div", B("add", P(2, 2000), TInt(1)), B("sub", P(2, 2001), TInt(1)))}
+Huge == Huge0 \cup {U("neg", h) : h \in Huge0} \cup {B("add", TInt(1), h) : h \in Huge0} \cup {B("mul", TRat(2, 3), h) : h \in Huge0}
+HugeIn == {B("add", U("sin", TInt(1)), B("mul", h, U("cos", TInt(2)))) : h \in Huge0} \cup {U("sqrt", h) : h \in Huge0} \cup {U("atan", h) : h \in Huge0}
 \* agreement only
 Gen == Irr \cup {U(f, a) : f \in F1, a \in Sub(Q \cup Irr, 12)} \cup {B(f, a, b) : f \in F2, a, b \in Sub(Q \cup Irr, 8)}
 Deep == {B(k, a, b) : k \in {"add", "mul", "div", "pow", "sub"}, a \in Sub(Gen, 40), b \in Sub(Gen \cup ExactQ, 25)} \cup {U(f, a) : f \in Sub(F1, 12), a \in Sub(Gen, 40)}
-Cases == {[op |-> "evald", t |-> t] : t \in ExactQ \cup Gen \cup Deep}
+Cases == {[op |-> "evald", t |-> t] : t \in ExactQ \cup Huge \cup HugeIn \cup Gen \cup Deep}
 ASSUME PrintT(<<"cases", Cardinality(Cases)>>)
 ASSUME ndJsonSerialize(IOEnv.OUT, SetToSeq(Cases))
 VARIABLE dummy
